@@ -1856,4 +1856,129 @@ theorem rotAllPerms_bijective' (degs : List Nat) :
         · rw [hscript, mem_space_append]; exact ⟨a, ha, b, hb, rfl⟩
         · rw [rotAllPerms_cons g degs a b hl, hea, heb]
 
+
+/-! ## RotateInternalNodes on the tree = the arrangements of `rotAllPerms`, node by node -/
+
+theorem inBounds_append_elim {x y d : List Nat} (h : inBounds (x ++ y) d = true) :
+    ∃ a b, d = a ++ b ∧ inBounds x a = true ∧ inBounds y b = true := by
+  have := (mem_space_iff _ _).2 h
+  rw [mem_space_append] at this
+  obtain ⟨a, ha, b, hb, rfl⟩ := this
+  exact ⟨a, b, rfl, (mem_space_iff _ _).1 ha, (mem_space_iff _ _).1 hb⟩
+
+theorem rotAllPerms_nil (d : List Nat) : rotAllPerms [] d = [] := by simp [rotAllPerms, segments]
+
+theorem rotAllPerms_append (g1 g2 a b : List Nat) (h : a.length = g1.sum) :
+    rotAllPerms (g1 ++ g2) (a ++ b) = rotAllPerms g1 a ++ rotAllPerms g2 b := by
+  induction g1 generalizing a with
+  | nil =>
+    have : a = [] := by simpa using h
+    subst this
+    simp [rotAllPerms_nil]
+  | cons g g1 ih =>
+    simp only [List.sum_cons] at h
+    have hsplit : a = a.take g ++ a.drop g := (List.take_append_drop g a).symm
+    have hl : (a.take g).length = g := by simp; omega
+    rw [hsplit, List.cons_append, List.append_assoc, rotAllPerms_cons g _ _ _ hl,
+      rotAllPerms_cons g g1 _ _ hl, ih (a.drop g) (by simp; omega)]
+    simp
+
+theorem length_permScript' (degs : List Nat) : (rotAllPermScript degs).length = degs.sum := by
+  induction degs with
+  | nil => rfl
+  | cons g degs ih => simp [rotAllPermScript, length_rotScript] at ih ⊢
+
+mutual
+theorem rotAllScriptT_eq (isRoot : Bool) : ∀ (t : T), rotAllScriptT isRoot t = rotAllPermScript (degsT isRoot t)
+  | .node d p kids => by
+    simp only [rotAllScriptT, degsT, rotAllPermScript, List.flatMap_cons]
+    have := rotAllScriptL_eq kids
+    simp only [rotAllPermScript] at this
+    rw [this]
+theorem rotAllScriptL_eq : ∀ (ks : Kids), rotAllScriptL ks = rotAllPermScript (degsL ks)
+  | [] => rfl
+  | (e, t) :: r => by
+    simp only [rotAllScriptL, degsL, rotAllPermScript, List.flatMap_append]
+    have h1 := rotAllScriptT_eq false t
+    have h2 := rotAllScriptL_eq r
+    simp only [rotAllPermScript] at h1 h2
+    rw [h1, h2]
+end
+
+theorem length_neighOf (isRoot : Bool) (t : T) : (neighOf isRoot t).length = degOf isRoot t := by
+  unfold neighOf degOf
+  cases isRoot
+  · simp only [Bool.false_eq_true, if_false, List.length_append, List.length_map, List.length_take,
+      List.length_drop, List.length_cons, List.length_nil]
+    omega
+  · simp
+
+/-- one node: `RotateNeighbors` gives the neighbours the arrangement `rotate (range deg) draws` -/
+theorem rotateNode_eq_permNode (isRoot : Bool) (t : T) (seg : List Nat)
+    (h : inBounds (rotScript (degOf isRoot t)) seg = true) :
+    rotateNode isRoot t seg = permNode isRoot t (rotate (List.range (degOf isRoot t)) seg) := by
+  unfold rotateNode permNode
+  rw [← length_neighOf] at h ⊢
+  rw [rotate_eq_map (neighOf isRoot t) none seg h, rotate_range _ seg h]
+
+mutual
+theorem rotAllL_length : ∀ (ks : Kids) (ds : List Nat), (rotAllL ks ds).1.length = ks.length
+  | [], _ => rfl
+  | (e, t) :: r, ds => by simp [rotAllL, rotAllL_length r]
+end
+
+mutual
+theorem rotAllT_link (isRoot : Bool) : ∀ (t : T) (d1 rest : List Nat) (prest : List (List Nat)),
+    inBounds (rotAllScriptT isRoot t) d1 = true →
+    rotAllT isRoot t (d1 ++ rest) =
+      ((applyPermsT isRoot t (rotAllPerms (degsT isRoot t) d1 ++ prest)).1, rest) ∧
+    (applyPermsT isRoot t (rotAllPerms (degsT isRoot t) d1 ++ prest)).2 = prest
+  | .node d p kids, d1, rest, prest, hb => by
+    simp only [rotAllScriptT] at hb
+    obtain ⟨a, b, rfl, ha, hb'⟩ := inBounds_append_elim hb
+    have hla : a.length = kids.length + (if isRoot then 0 else 1) := by
+      rw [length_of_inBounds ha, length_rotScript]
+    obtain ⟨ih1, ih2⟩ := rotAllL_link kids b rest prest hb'
+    simp only [degsT]
+    rw [rotAllPerms_cons _ _ a b hla]
+    simp only [rotAllT, applyPermsT, List.cons_append, List.drop_succ_cons, List.drop_zero, List.headD_cons]
+    have ht : (a ++ b ++ rest).take (kids.length + (if isRoot then 0 else 1)) = a := by
+      rw [List.append_assoc, List.take_append_of_le_length (by omega), List.take_of_length_le (by omega)]
+    have hd : (a ++ b ++ rest).drop (kids.length + (if isRoot then 0 else 1)) = b ++ rest := by
+      rw [List.append_assoc, List.drop_append_of_le_length (by omega), List.drop_of_length_le (by omega)]
+      simp
+    rw [ht, hd, ih1]
+    simp only [ih2, and_true]
+    congr 1
+    have hdeg : degOf isRoot (T.node d p (applyPermsL kids (rotAllPerms (degsL kids) b ++ prest)).1) =
+        kids.length + (if isRoot then 0 else 1) := by
+      have := congrArg Prod.fst ih1
+      simp only at this
+      unfold degOf
+      rw [T.kids_node, ← this, rotAllL_length]
+    have hb2 : inBounds (rotScript (degOf isRoot (T.node d p (applyPermsL kids (rotAllPerms (degsL kids) b ++ prest)).1))) a = true := by
+      rw [hdeg]; exact ha
+    rw [rotateNode_eq_permNode _ _ _ hb2, hdeg]
+theorem rotAllL_link : ∀ (ks : Kids) (d1 rest : List Nat) (prest : List (List Nat)),
+    inBounds (rotAllScriptL ks) d1 = true →
+    rotAllL ks (d1 ++ rest) = ((applyPermsL ks (rotAllPerms (degsL ks) d1 ++ prest)).1, rest) ∧
+    (applyPermsL ks (rotAllPerms (degsL ks) d1 ++ prest)).2 = prest
+  | [], d1, rest, prest, hb => by
+    have : d1 = [] := by simpa [rotAllScriptL] using length_of_inBounds hb
+    subst this
+    simp [rotAllL, applyPermsL, degsL, rotAllPerms_nil]
+  | (e, t) :: r, d1, rest, prest, hb => by
+    simp only [rotAllScriptL] at hb
+    obtain ⟨a, b, rfl, ha, hb'⟩ := inBounds_append_elim hb
+    have hla : a.length = (degsT false t).sum := by
+      rw [length_of_inBounds ha, rotAllScriptT_eq, length_permScript']
+    obtain ⟨t1, t2⟩ := rotAllT_link false t a (b ++ rest) (rotAllPerms (degsL r) b ++ prest) ha
+    obtain ⟨l1, l2⟩ := rotAllL_link r b rest prest hb'
+    simp only [degsL]
+    rw [rotAllPerms_append _ _ a b hla]
+    simp only [rotAllL, applyPermsL, List.append_assoc]
+    rw [t1]
+    simp only [t2, l1, l2, and_self]
+end
+
 end Gotree.C20
